@@ -28,6 +28,9 @@ def coq_props(ctx, module, theorems, findings_module=None, extra=()):
     if ok:
         closed, out = print_assumptions(ctx, module, theorems)
         ctx.oblige("Print Assumptions: closed under the global context for every theorem of %s" % module, closed, out[-1000:])
+        if ctx.tier == "thorough":
+            from vlib import coqchk_module
+            coqchk_module(ctx, module)
     if findings_module and not res["Props/%s.vo" % findings_module][0] and ok:
         ctx.note("finding-not-reproduced: Props/%s.v no longer compiles on the current source (refutation witnesses of known findings)" % findings_module)
     grep_gate(ctx)
